@@ -188,3 +188,77 @@ Proof.
 Qed.
 Lemma nth_ofnat0 (sh : list nat) j : nth j (map Z.of_nat sh) 0%Z = Z.of_nat (nth j sh 0%nat).
 Proof. change 0%Z with (Z.of_nat 0). apply map_nth. Qed.
+
+Lemma nth_centre m t j : (j < length (pmin (reg m)))%nat -> nth j (centre m t) 0 = centre_coord m t j.
+Proof. intros H. unfold centre. apply nth_map_iota. exact H. Qed.
+
+Lemma centre_length m t : length (centre m t) = length (pmin (reg m)).
+Proof. unfold centre. rewrite map_length, iota_length. reflexivity. Qed.
+
+Ltac try_keep a b T Ru :=
+  solve [etransitivity; [apply (axis_keep a b T Ru); [assumption|assumption|ring|ring] | ring]].
+Ltac try_flip a b T Ru :=
+  solve [etransitivity; [apply (axis_flip a b T Ru); [assumption|assumption|ring|ring] | ring]].
+Ltac fin_ab a b R1 R2 :=
+  first [ try_keep a b R1 R1 | try_keep a b R2 R2 | try_keep a b R1 R2 | try_keep a b R2 R1
+        | try_keep a b 0 0
+        | try_flip a b R1 R1 | try_flip a b R2 R2 | try_flip a b R1 R2 | try_flip a b R2 R1 ].
+
+Theorem centre_covariant ip m a b k ref m' R i1 i2 (sh : list nat) (i : idx) j :
+  wf_mesh m -> n m = map Z.of_nat sh ->
+  mesh_rotate90 ip m a b k ref = OK m' ->
+  rot_reference (reg m) ref = OK R -> dim2index (reg m) a = OK i1 -> dim2index (reg m) b = OK i2 ->
+  length i = length sh -> (forall j, (j < length sh)%nat -> (nth j i 0 < nth j sh 0)%nat) ->
+  (j < length sh)%nat ->
+  centre_coord m' (map Z.of_nat (rot_index sh i1 i2 k i)) j ==
+  nth j (rot_pt (fst (qturn k)) (snd (qturn k)) i1 i2 R (centre m (map Z.of_nat i))) 0.
+Proof.
+  intros Hwf Hn Hrot HR Hd1 Hd2 Hli Hin Hj.
+  destruct (mesh_rotate90_inv _ _ _ _ _ _ _ Hrot) as (r' & i1' & i2' & Hreg & Hd1' & Hd2' & Hr' & Hn' & _).
+  rewrite Hd1 in Hd1'. rewrite Hd2 in Hd2'. inversion Hd1'; inversion Hd2'; subst i1' i2'. clear Hd1' Hd2'.
+  destruct (region_rotate90_inv _ _ _ _ _ _ _ Hreg) as (R' & i1' & i2' & Hab & HR' & Hd1' & Hd2' & Hpm & HpM & _).
+  rewrite HR in HR'. rewrite Hd1 in Hd1'. rewrite Hd2 in Hd2'.
+  inversion HR'; inversion Hd1'; inversion Hd2'; subst R' i1' i2'. clear HR' Hd1' Hd2'.
+  destruct Hwf as [[L1 [L0 [L2 [L3 [_ [Hlt _]]]]]] [L4 Hpos]].
+  assert (Lsh : length sh = length (pmin (reg m))) by (rewrite <- L4, Hn, map_length; reflexivity).
+  destruct (dim2index_spec _ _ _ Hd1) as [B1 N1]. destruct (dim2index_spec _ _ _ Hd2) as [B2 N2].
+  assert (Hne : i1 <> i2) by (intros ->; apply Hab; congruence).
+  rewrite L2 in B1, B2.
+  assert (Hlt' : forall j, (j < length (pmin (reg m)))%nat -> nth j (pmin (reg m)) 0 < nth j (pmax (reg m)) 0).
+  { clear - Hlt. induction Hlt as [|x y l1 l2 Hxy H IH]; intros [|j] Hj; simpl in *; try lia; auto. apply IH; lia. }
+  assert (Hpz : forall j, (j < length sh)%nat -> (0 < Z.of_nat (nth j sh 0%nat))%Z).
+  { intros j' Hj'. specialize (Hin j' Hj'). lia. }
+  pose proof (Hlt' i1 B1) as Hlt1. pose proof (Hlt' i2 B2) as Hlt2. pose proof (Hlt' j ltac:(lia)) as Hltj.
+  pose proof (Hin i1 ltac:(lia)) as Hx. pose proof (Hin i2 ltac:(lia)) as Hy.
+  unfold centre_coord at 1. rewrite Hr', Hpm, HpM, Hn'.
+  rewrite (nth_map2 Qmin _ _ j 0 0 0) by (rewrite rot_pt_length; lia).
+  rewrite (nth_map2 Qmax _ _ j 0 0 0) by (rewrite rot_pt_length; lia).
+  rewrite !nth_rot_pt by (try exact Hne; rewrite ?centre_length; lia).
+  rewrite !nth_centre by lia.
+  rewrite nth_ofnat0.
+  unfold rot_n, rot_index, swap_nth, qturn, zturn. rewrite <- (odd_mod4 k), Hn.
+  unfold centre_coord. rewrite Hn, !nth_ofnat, !nth_ofnat0 by lia.
+  set (a1 := nth i1 (pmin (reg m)) 0) in *. set (b1 := nth i1 (pmax (reg m)) 0) in *.
+  set (a2 := nth i2 (pmin (reg m)) 0) in *. set (b2 := nth i2 (pmax (reg m)) 0) in *.
+  set (R1 := nth i1 R 0). set (R2 := nth i2 R 0).
+  set (x := nth i1 i 0%nat) in *. set (y := nth i2 i 0%nat) in *.
+  set (n1 := nth i1 sh 0%nat) in *. set (n2 := nth i2 sh 0%nat) in *.
+  pose proof (Hpz i1 ltac:(lia)) as Hp1. pose proof (Hpz i2 ltac:(lia)) as Hp2. pose proof (Hpz j Hj) as Hpj.
+  fold n1 in Hp1. fold n2 in Hp2.
+  destruct (mod4_cases k) as [H|[H|[H|H]]]; rewrite H; cbn [Z.odd fst snd];
+    destruct (Nat.eqb_spec j i2) as [->|Hj2]; [|destruct (Nat.eqb_spec j i1) as [->|Hj1] | |destruct (Nat.eqb_spec j i1) as [->|Hj1] | |destruct (Nat.eqb_spec j i1) as [->|Hj1] | |destruct (Nat.eqb_spec j i1) as [->|Hj1]].
+  all: repeat (rewrite ?nth_set_nth, ?set_nth_length, ?map_length).
+  all: repeat match goal with
+         | |- context [(?x =? ?y)%nat] => destruct (Nat.eqb_spec x y); try lia; try congruence
+         end.
+  all: repeat match goal with
+         | |- context [(?x <? ?y)%nat] => destruct (Nat.ltb_spec x y); try lia
+         end.
+  all: cbn [andb]; rewrite ?nth_ofnat, ?nth_ofnat0 by lia.
+  all: fold a1 b1 a2 b2 x y n1 n2.
+  all: try (replace (Z.of_nat (n2 - 1 - y)) with (Z.of_nat n2 - 1 - Z.of_nat y)%Z by lia).
+  all: try (replace (Z.of_nat (n1 - 1 - x)) with (Z.of_nat n1 - 1 - Z.of_nat x)%Z by lia).
+  all: change (inject_Z 0) with 0; change (inject_Z 1) with 1.
+  all: first [ fin_ab a1 b1 R1 R2 | fin_ab a2 b2 R1 R2
+             | fin_ab (nth j (pmin (reg m)) 0) (nth j (pmax (reg m)) 0) R1 R2 ].
+Qed.
